@@ -207,6 +207,10 @@ def _mut1(prog, rr, classes, what):
                     if isinstance(x, ast.Call) and isinstance(x.func, ast.Attribute) and norm(x.func.value) == "self." + a \
                             and x.func.attr in ("append", "add", "update", "extend", "pop", "remove", "clear", "insert", "setdefault"):
                         muts.append((m, x))
+                    # handed to another object that may fill it (`Helper(self.a)`, `f(self.a)`)
+                    if isinstance(x, ast.Call) and any(norm(arg) == "self." + a for arg in list(x.args) + [k.value for k in x.keywords]) \
+                            and call_name(x) not in ("len", "print", "str", "list", "sorted", "iter", "isinstance"):
+                        muts.append((m, x))
             rr.inst("%s.%s is a class-level container; mutated through self at %d site(s)" % (c.name, a, len(muts)))
             if muts:
                 m, x = muts[0]
@@ -223,7 +227,7 @@ def mut1c(prog, rr):
     rr.inst("coverage model classes scanned: %d" % len(cs))
 
 
-@rule("MUT1s", ["C01", "C09"], "solve-path models and visitors keep their tables per instance", engine="EFF", floor=1)
+@rule("MUT1s", ["C01", "C09", "C20"], "solve-path models and visitors keep their tables per instance", engine="EFF", floor=1)
 def mut1s(prog, rr):
     cs = [c for c in prog.classes if (c.module.name.startswith("vsc.model.") or c.module.name.startswith("vsc.visitors."))
           and not c.module.name.startswith("vsc.model.cover")]
